@@ -1,7 +1,7 @@
 (* P_C02 — Evaluation and substitution compute the polynomial's value. *)
 From mathcomp Require Import all_ssreflect all_algebra.
 From SsrMultinomials Require Import mpoly.
-From NP Require Import Base Poly Query Eval Abs Align EvalP.
+From NP Require Import Base Poly Query Eval Abs Align EvalP SubstP.
 Set Implicit Arguments. Unset Strict Implicit. Unset Printing Implicit Defensive.
 Import GRing.Theory.
 Local Open Scope ring_scope.
@@ -40,6 +40,51 @@ Theorem C02_otherwise_binds ns args (kwargs : seq (nat * carg R)) :
   exists b, bind ns args kwargs = Ok b /\ size b = size ns.
 Proof. exact: bind_ok. Qed.
 
+
+(* ---- partial application and polynomial arguments: substitution --------------------------------------- *)
+(* Every argument may be a number / array, a polynomial array, or missing (the indeterminate stays).
+   The result has shape poly.shape + broadcast(argument shapes); its element (i, j) is the sum over the
+   terms of coefficient_i times the product of the argument elements (at broadcast position j) raised
+   to the exponents — i.e. SsrMultinomials' composition of element i with the arguments. *)
+Theorem C02_substitution o p (bound : seq (option (carg R))) r :
+  wfb p -> all (fun v => v < n)%N (names p) -> size bound = size (names p) -> all (@okarg R) bound ->
+  call_poly o p bound = Ok r ->
+  let params := [seq as_poly va.1 va.2 | va <- zip (names p) bound] in
+  exists2 s, bshapes [seq shape q | q <- params] = Some s &
+    (0 < prodn s)%N ->
+    [/\ wfb r, shape r = shape p ++ s &
+        forall i j, (i < psize p)%N -> (j < prodn s)%N ->
+          absE n r (i * prodn s + j) = (absE n p i) \mPo (sub_tuple n (names p) params s j)].
+Proof. exact: call_poly_comp. Qed.
+
+Theorem C02_substitution_terms o p (bound : seq (option (carg R))) r :
+  wfb p -> size bound = size (names p) -> all (@okarg R) bound ->
+  call_poly o p bound = Ok r ->
+  let params := [seq as_poly va.1 va.2 | va <- zip (names p) bound] in
+  exists2 s, bshapes [seq shape q | q <- params] = Some s &
+    (0 < prodn s)%N ->
+    [/\ wfb r, shape r = shape p ++ s &
+        forall i j, (i < psize p)%N -> (j < prodn s)%N ->
+          absE n r (i * prodn s + j)
+          = \sum_(t <- terms p) nth 0 t.2 i *:
+              \prod_(ep <- zip t.1 params) absE n ep.2 (bidx (shape ep.2) s j) ^+ ep.1].
+Proof. exact: call_poly_spec. Qed.
+
+(* evaluating in stages, or through a substituted polynomial, gives the values of evaluating at once *)
+Theorem C02_staged_evaluation o p (bound : seq (option (carg R))) r (nu : 'I_n -> R) :
+  wfb p -> all (fun v => v < n)%N (names p) -> size bound = size (names p) -> all (@okarg R) bound ->
+  call_poly o p bound = Ok r ->
+  let params := [seq as_poly va.1 va.2 | va <- zip (names p) bound] in
+  exists2 s, bshapes [seq shape q | q <- params] = Some s &
+    (0 < prodn s)%N ->
+    forall i j, (i < psize p)%N -> (j < prodn s)%N ->
+      (absE n r (i * prodn s + j)).@[nu]
+      = (absE n p i).@[fun v => (sub_at n (names p) params s j v).@[nu]].
+Proof. exact: call_staged. Qed.
+
+(* an in-range index of the broadcast shape maps to an in-range index of each operand *)
+Theorem C02_broadcast_index_in_range a t j : bshape a t = Some t -> (j < prodn t)%N -> (bidx a t j < prodn a)%N.
+Proof. exact: bidx_lt. Qed.
 End C02.
 
 Print Assumptions C02_numeric_evaluation.
@@ -47,3 +92,7 @@ Print Assumptions C02_argument_shapes_must_broadcast.
 Print Assumptions C02_unknown_name.
 Print Assumptions C02_doubly_supplied.
 Print Assumptions C02_otherwise_binds.
+Print Assumptions C02_substitution.
+Print Assumptions C02_substitution_terms.
+Print Assumptions C02_staged_evaluation.
+Print Assumptions C02_broadcast_index_in_range.
